@@ -200,6 +200,31 @@ def run(ctx):
                 return "two identical type declarations in a module whose types were all requested implicitly"
         return None
 
+    # `Builder::module_mut` (no model: judged on the implementation alone): whatever header the caller installs, the finished module's
+    # bound is the id the next request would get — the history ends with `id`, so the bound must be that id + 1
+    mm = []
+    for r in reqs[:: 4 if ctx.tier == "quick" else 1]:
+        calls = r.split(" ")[1:]
+        pre = [c for c in calls if c.startswith("from:")]
+        body = [c for c in calls if not c.startswith("from:")]
+        k = rnd.randrange(len(body) + 1)
+        body.insert(k, "module_mut_bound/%d" % rnd.choice([0, 1, 5, 77, 1000, 4000000100]))
+        mm.append("build " + " ".join(pre + body + ["id"]))
+
+    def mm_oracle(req, resp):
+        if resp.startswith("panic"):
+            return "panicked: " + resp[6:80]
+        if not resp.startswith("ok "):
+            return None
+        outs = resp.split(" | ")[0].split(" ")[1:]
+        bound = int(resp.split(" | ")[2].split(" ")[0].split(",")[3])
+        if not (outs and outs[-1].startswith("ok:") and outs[-1][3:].isdigit()):
+            return None
+        if bound != int(outs[-1][3:]) + 1:
+            return f"the last request `id` returned {outs[-1][3:]}, the finished module's bound is {bound}"
+        return None
+    found_mm = C.oracle_search(ctx, mm, mm_oracle, "build-module-mut")
+    ctx.oblige(f"oracle:build-module-mut ({len(mm)} histories, implementation only)", not found_mm)
     if broken:
         if C.oracle_search(ctx, reqs, oracle, "build-ids"):
             ctx.issues = [i for i in ctx.issues if i.found_input]
